@@ -305,7 +305,7 @@ theorem getGroupSignatures_ok (s : Img) (g : Nat) (legacy : Bool) (sigs : List R
     sigs ≠ [] ∧ ∀ d ∈ sigs, d ∈ s.rds ∧ d.used = true ∧ d.dtype = dtSignature ∧
       d.linkIsGroup = true ∧ d.linkedID = g ∧ isLegacy (facts (objContent s.st d)) = legacy := by
   unfold getGroupSignatures at h
-  by_cases h0 : (s.h.dfree == s.h.dtotal) = true
+  by_cases h0 : s.isEmpty = true
   · simp [h0] at h
   · simp only [h0, Bool.false_eq_true, ↓reduceIte] at h
     by_cases hg : (g == 0) = true
